@@ -26,7 +26,8 @@ MANIFEST = {
             're-encodings of a fully valid new block or transaction are relayed to a real node with a real store: if the '
             'object enters chain state, pool or store by any route, the id it is known under must be the hash of its '
             'canonical encoding, also after a store round trip, so two nodes can never know one content under two ids.'
-            ' Ids of freshly built objects are also taken right after id computations that failed half-way (half-built transaction hashed or printed, fields that do not fit their width).',
+            ' Ids of freshly built objects are also taken right after id computations that failed half-way (half-built transaction hashed or printed, fields that do not fit their width).'
+            ' A decodable block with unusual but storable references goes through the real block store and back; encodings are interleaved as on two threads; lists of up to 1,300 entries.',
     'note': 'Trusted: hashlib; the repo encoder defines "canonical" (the harness never re-implements a byte format). The '
             '"every byte string" quantifier is sampled by rewriting real encodings, not enumerated.',
 }
